@@ -29,6 +29,21 @@ def handle : List String → Option String
     -- the specification: what is loaded is what was written
     if loaded != c then pure "FAIL loaded collection differs from the written one" else
     pure (if readSigs store == .loaded c then "ok" else "FAIL model read(write c) != c")
+  -- the same for a `SignatureArray` that is a window of a larger values array (bounds neither start at 0 nor end at the end): the arrays
+  -- are stored as they are, so they are not the canonical ones; what is stored must still *read* (model reader) as the collection written
+  | ["c12.rtw", k, pre, dt, sigs, rawValues, rawBounds, lk, lpre, ldt, lsigs, idsW, idsL, metaW, metaL] => do
+    let k ← k.toNat?
+    let pre ← parseHex pre
+    let dt ← dt.toNat?
+    let sigs ← parseNatLists sigs
+    let rawValues ← parseNats rawValues
+    let rawBounds ← parseNats rawBounds
+    let c : SigCollection := { k := k, pre := pre, metaAttrs := [some metaW], ids := [idsW], sigs := sigs, dtypeBytes := dt }
+    let store := { writeSigs true c with values := rawValues, bounds := rawBounds }
+    let loaded : SigCollection := { k := (← lk.toNat?), pre := (← parseHex lpre), metaAttrs := [some metaL], ids := [idsL],
+                                     sigs := (← parseNatLists lsigs), dtypeBytes := (← ldt.toNat?) }
+    if loaded != c then pure "FAIL loaded collection differs from the written one" else
+    pure (if readSigs store == .loaded c then "ok" else "FAIL the stored values / bounds do not read back as the collection written")
   | ["c12.foreign", kind, real] => do
     let img ← if kind == "nothdf5" then some FileImage.notHdf5
       else if kind == "othermarkerless" then some (FileImage.hdf5 { marker := none, k := 0, pre := [], metaAttrs := [], ids := [], values := [], bounds := [], dtypeBytes := 0 })
